@@ -1,8 +1,10 @@
 package checks
 
 import (
+	"encoding/json"
 	"fmt"
 	"strings"
+	"sync"
 	"time"
 
 	"github.com/zenon-network/go-zenon/verifier"
@@ -64,15 +66,70 @@ func ledgerModelCheck(run *core.Run) {
 }
 
 type walkResult struct {
-	run      ledgerRun
-	drained  bool
-	problems []string
-	methods  map[string]int
-	stats    string
+	Run      ledgerRun
+	Drained  bool
+	Problems []string
+	Methods  map[string]int
+	Stats    string
+}
+
+type walkArg struct {
+	Seed      int64
+	Momentums int
+	Htlc      bool
+	Enforced  bool
+	Stalls    bool
+}
+
+func init() {
+	core.RegisterChild("ledger-walk", func(arg json.RawMessage) (interface{}, error) {
+		var a walkArg
+		if err := json.Unmarshal(arg, &a); err != nil {
+			return nil, err
+		}
+		node.Quiet()
+		return labWalk(a.Seed, a.Momentums, a.Htlc, a.Enforced, a.Stalls)
+	})
+}
+
+// labWalks runs the walks in child processes (a panic in one of the node's own goroutines ends the process: that is a
+// verdict about the code, C09, not the end of the check), several at a time.
+func labWalks(run *core.Run, args []walkArg) []*walkResult {
+	out := make([]*walkResult, len(args))
+	crashes := make([]*core.Crash, len(args))
+	errs := make([]error, len(args))
+	sem := make(chan struct{}, 8)
+	var wg sync.WaitGroup
+	for i := range args {
+		wg.Add(1)
+		go func(i int) {
+			defer wg.Done()
+			sem <- struct{}{}
+			defer func() { <-sem }()
+			var r walkResult
+			crashes[i], errs[i] = core.Child("ledger-walk", args[i], &r, 20*time.Minute)
+			if crashes[i] == nil && errs[i] == nil {
+				out[i] = &r
+			}
+		}(i)
+	}
+	wg.Wait()
+	var res []*walkResult
+	for i := range args {
+		if errs[i] != nil {
+			core.Fatal("%v", errs[i])
+		}
+		if c := crashes[i]; c != nil {
+			run.ReportFor("C09", "C09:"+c.Key(), fmt.Sprintf("the node process went down during lab walk %+v: %s", args[i], c.String()), map[string]interface{}{"kind": "walk", "arg": args[i], "stderr_tail": c.Text})
+			continue
+		}
+		res = append(res, out[i])
+	}
+	return res
 }
 
 // labWalk runs one seeded walk on a fresh producer and returns its projected trace.
-func labWalk(seed int64, momentums int, htlc bool, enforced bool) (*walkResult, error) {
+func labWalk(seed int64, momentums int, htlc bool, enforced bool, stalls bool) (*walkResult, error) {
 	walk.LabConstants()
 	if enforced {
 		verifier.ReceiverMismatchEnforcementHeight = 1
@@ -87,6 +144,7 @@ func labWalk(seed int64, momentums int, htlc bool, enforced bool) (*walkResult, 
 	}
 	defer p.Stop()
 	w := walk.New(p, seed)
+	w.Stalls = stalls
 	if htlc {
 		if id, err := w.ActivateSpork("spork-htlc"); err != nil {
 			return nil, err
@@ -111,9 +169,9 @@ func labWalk(seed int64, momentums int, htlc bool, enforced bool) (*walkResult, 
 	if err := cap.Project(ids[0], pr); err != nil {
 		return nil, err
 	}
-	name := fmt.Sprintf("lab walk seed=%d momentums=%d htlc=%v enforced=%v", seed, momentums, htlc, enforced)
-	return &walkResult{run: ledgerRun{Name: name, Events: pr.Events, Note: pr.Note}, drained: drained, problems: p.Problems, methods: w.Methods,
-		stats: fmt.Sprintf("%s: %d blocks submitted, %d refused at send time, %d accepted, %d momentums", name, w.Submitted, w.RejectedAtSend, pr.Blocks, pr.Momentums)}, nil
+	name := fmt.Sprintf("lab walk seed=%d momentums=%d htlc=%v enforced=%v stalls=%v", seed, momentums, htlc, enforced, stalls)
+	return &walkResult{Run: ledgerRun{Name: name, Events: pr.Events, Note: pr.Note}, Drained: drained, Problems: p.Problems, Methods: w.Methods,
+		Stats: fmt.Sprintf("%s: %d blocks submitted, %d refused at send time, %d accepted, %d momentums, %d stalls", name, w.Submitted, w.RejectedAtSend, pr.Blocks, pr.Momentums, w.StallCount)}, nil
 }
 
 type ledgerFamilyOpts struct {
@@ -164,23 +222,22 @@ func ledgerFamily(run *core.Run, o ledgerFamilyOpts) {
 	}
 	var walkStats []string
 	methods := map[string]int{}
+	var wargs []walkArg
 	for i := 0; i < nw; i++ {
-		seed := run.Seed*1000 + int64(i)
 		enforced := i != 1 || (o.prop != "C01" && o.prop != "C04") // C01/C04: one walk in the default (legacy) regime
-		wr, err := labWalk(seed, wl, i%2 == 0, enforced)
-		if err != nil {
-			core.Fatal("%v", err)
-		}
-		runs = append(runs, wr.run)
-		walkStats = append(walkStats, wr.stats)
-		for k, v := range wr.methods {
+		wargs = append(wargs, walkArg{Seed: run.Seed*1000 + int64(i), Momentums: wl, Htlc: i%2 == 0, Enforced: enforced, Stalls: i%4 >= 2})
+	}
+	for _, wr := range labWalks(run, wargs) {
+		runs = append(runs, wr.Run)
+		walkStats = append(walkStats, wr.Stats)
+		for k, v := range wr.Methods {
 			methods[k] += v
 		}
-		if !wr.drained {
-			run.ReportFor("C09", "C09:inbox-not-drained", "after 60 further momentums a contract inbox still holds a confirmed send: "+wr.run.Name, map[string]interface{}{"kind": "walk", "seed": seed})
+		if !wr.Drained {
+			run.ReportFor("C09", "C09:inbox-not-drained", "after 60 further momentums a contract inbox still holds a confirmed send: "+wr.Run.Name, map[string]interface{}{"kind": "walk", "run": wr.Run.Name})
 		}
-		for _, pb := range wr.problems {
-			run.ReportFor("C09", "C09:producer-problem", "producing pillar reported: "+pb+" in "+wr.run.Name, map[string]interface{}{"kind": "walk", "seed": seed})
+		for _, pb := range wr.Problems {
+			run.ReportFor("C09", "C09:producer-problem", "producing pillar reported: "+pb+" in "+wr.Run.Name, map[string]interface{}{"kind": "walk", "run": wr.Run.Name})
 		}
 	}
 	if o.locks {
